@@ -231,12 +231,51 @@ impl Property for C11 {
         let mut bits: Vec<bool> = Vec::new();
         let mut blocks: Vec<(usize, usize)> = Vec::new();
         let mut nlabels = 0;
-        for b in 0..nblocks {
+        // v2: a bank with address units of 1, 2 or 4 bits, where reservations and forward #addr let a written range
+        // start at ANY bit offset (not only on the granule of a format)
+        let fine = crate::engine::gen_version() >= 2 && t.chance(1, 4);
+        if fine {
+            let u = *t.pick(&[1usize, 2, 4]);
+            ctx.label(format!("fine-bank:unit-{}", u));
+            src.push_str(&format!("#bankdef a\n{{\n    bits = {}\n    addr = 0\n    outp = 0\n}}\n", u));
+            let pieces = t.urange(2, 14);
+            let mut start = 0usize;
+            for i in 0..pieces {
+                if t.chance(1, 3) {
+                    if bits.len() > start {
+                        blocks.push((start, bits.len() - start));
+                    }
+                    let k = t.urange(1, 40);
+                    if t.flip() {
+                        src.push_str(&format!("#res {}\n", k));
+                    } else {
+                        src.push_str(&format!("#addr {}\n", bits.len() / u + k));
+                    }
+                    bits.resize(bits.len() + u * k, false);
+                    start = bits.len();
+                }
+                if t.chance(1, 6) {
+                    nlabels += 1;
+                    src.push_str(&format!("lb{}:\n", nlabels));
+                }
+                let n = u * t.urange(1, (64 / u).min(if i % 2 == 0 { 64 } else { 9 }));
+                let v = t.bits64() & if n == 64 { u64::MAX } else { (1u64 << n) - 1 };
+                src.push_str(&format!("#d{} {}\n", n, v));
+                for k in (0..n).rev() {
+                    bits.push((v >> k) & 1 == 1);
+                }
+            }
+            if bits.len() > start {
+                blocks.push((start, bits.len() - start));
+            }
+        }
+        for b in 0..if fine { 0 } else { nblocks } {
             if b > 0 {
                 // start the next block on a byte boundary strictly after the current end, with a gap
                 let end_bytes = (bits.len() + 7) / 8;
                 // on a 32-bit boundary, so that the start is expressible at every Intel HEX address unit
-                let start = ((end_bytes + t.urange(1, 40)) + 3) / 4 * 4;
+                // (v2: on any byte boundary: a format has to widen a range to its own granule)
+                let start = if crate::engine::gen_version() >= 2 && t.flip() { end_bytes + t.urange(1, 40) } else { ((end_bytes + t.urange(1, 40)) + 3) / 4 * 4 };
                 src.push_str(&format!("#addr {}\n", start));
                 bits.resize(start * 8, false);
             }
@@ -249,12 +288,11 @@ impl Property for C11 {
                     nlabels += 1;
                     src.push_str(&format!("lb{}:\n", nlabels));
                 }
-                // (a written range must start on a 32-bit boundary to be expressible at every Intel HEX address unit)
-                if v2 && bits.len() % 32 == 0 && t.chance(1, 4) {
+                if v2 && bits.len() % 8 == 0 && t.chance(1, 4) {
                     if bits.len() > start {
                         blocks.push((start, bits.len() - start));
                     }
-                    let k = 4 * t.urange(1, 3);
+                    let k = if bits.len() % 32 == 0 && t.flip() { 4 * t.urange(1, 3) } else { t.urange(1, 9) };
                     src.push_str(&format!("#res {}\n", k));
                     bits.resize(bits.len() + 8 * k, false);
                     start = bits.len();
@@ -275,8 +313,11 @@ impl Property for C11 {
             }
         }
         ctx.set_hash_str(&src);
-        ctx.nontrivial = nblocks >= 2 || bits.len() % 8 != 0;
-        ctx.label(format!("blocks:{}", nblocks));
+        ctx.nontrivial = blocks.len() >= 2 || bits.len() % 8 != 0;
+        ctx.label(format!("blocks:{}", blocks.len().min(6)));
+        if blocks.iter().any(|b| b.0 % 8 != 0) {
+            ctx.label("a-written-range-starts-off-byte");
+        }
         ctx.render(|| json!({"construction": "assembled", "source": src, "length": bits.len()}));
         let mut fs = MemFs::new();
         let res = match assemble_for(&mut fs, &src) {
